@@ -105,6 +105,33 @@ def run_c14(ctx):
                 ops.append("addnv t t " + hx(nb.serialize()))
                 impl.append("ok")
                 res.count("ledger_moved_between_spends")
+            if step in (3, 9) or rng.random() < 0.08:
+                # the ledger reorganises between two spends: the wallet has just looked at its balance at the head; a competitor
+                # of the head arrives (the head stays), then a block on top of the competitor (the other branch takes over).
+                # Both pay wallet keys; what the abandoned head's block paid or confirmed is gone from the wallet's view.
+                hb_ = cs.block_by_hash[head]
+                if hb_.height >= 1:
+                    ops.append("w balance t")
+                    impl.append(str(w.get_balance(cs)))
+                    s1 = tree.extend(hb_.previous_block_hash, txs=[], miner=rng.randrange(0, n_keys))
+                    ops.append("addnv t t " + hx(s1.serialize()))
+                    impl.append("ok")
+                    ops.append("w balance t")                      # … and looks again when the competitor has arrived
+                    impl.append(str(w.get_balance(tree.cs)))
+                    s2 = tree.extend(s1.hash(), txs=[], miner=rng.randrange(0, n_keys))
+                    ops.append("addnv t t " + hx(s2.serialize()))
+                    impl.append("ok")
+                    cs = tree.cs
+                    head = cs.current_chain_hash
+                    utxo = tree.utxo(head)
+                    owned = {r: o for r, o in utxo.items() if o.public_key.public_key in w.keypairs}
+                    ops.append("w balance t")
+                    impl.append(str(w.get_balance(cs)))
+                    if w.get_balance(cs) != sum(o.value for o in owned.values()):
+                        res.violations.append({"kind": "after a reorganisation the reported balance is not the total of unspent outputs "
+                                                       "paying wallet keys at the new head", "reported": w.get_balance(cs),
+                                               "expected": sum(o.value for o in owned.values()), "property": "C15"})
+                    res.count("ledger_reorganised_between_spends" if head == s2.hash() else "side_branch_did_not_take_over")
             if step == 5 or rng.random() < 0.1:
                 # the wallet file is opened a second time in the same process (a restored / reloaded wallet): a new object
                 # over the same keys, which has not spent anything yet (the record of used outputs is not saved)
